@@ -4,8 +4,14 @@ from vlib import common
 
 def key_fn(case, obs, verdict):
     f = case.split(" ")
-    kind = f[0]
     why = verdict.split(":", 1)[1] if ":" in verdict else verdict
+    if f[0] == "conc":
+        if why.startswith("concurrent first Next"):
+            what = "before-start" if "before the schedule" in why else "not-one-start" if "one start" in why else \
+                "finish-disagrees" if "finish" in why else "start-after-first-return"
+            return "conc-%s:unstarted-shared-schedule:%s" % (f[3], what)
+        return "conc-" + key_fn(" ".join(f[3:]), obs, verdict)
+    kind = f[0]
     if kind in ("const", "line", "step"):
         d = int(f[-1])
         dk = "whole-second" if d % 1000000000 == 0 else ("sub-second" if d < 1000000000 else "fractional-second")
@@ -19,7 +25,7 @@ def key_fn(case, obs, verdict):
 
 
 RULE = ("non-trivial: the implementation released at least 2 tokens and the profile is not a flat rate over a whole "
-        "number of seconds (steps always count); distinct = distinct case lines")
+        "number of seconds (steps always count; conc cases additionally need >= 2 goroutines); distinct = distinct case lines")
 BRIDGES = ["Gen/Sched_bridge.v"]
 # float rounding bound (Flocq): statements only, proofs in Proofs/SchedFloat*.v (built once, cached)
 FLOAT = ["Properties/C01_float.v"]
@@ -28,7 +34,7 @@ TRUSTED = [
     "Model/SchedExpr.v; local definitions inlined, integer vs float division decided from the declared parameter types)",
     "extraction: ExtrOcamlBasic only; OCaml driver ocaml/C01/main.ml + ocaml/common/conv.ml (zarith for decimal I/O); the driver applies the "
     "float64 tolerance of DESIGN.md section 3 (1 ns + D*2^-40 on instants, relative 2^-40 on the integral before rounding down)",
-    "correspondence harness harness/cmd/hC01 (real schedule.NewConstConf/NewLineConf/NewStepConf/NewOnceConf, Start, Next, Left)",
+    "correspondence harness harness/cmd/hC01 (real schedule.NewConstConf/NewLineConf/NewStepConf/NewOnceConf, Start, Next, Left; conc cases: G goroutines released by a spinning barrier drain a fresh un-Started schedule, many rounds, wall-clock comparisons reduced to 0/1 flags)",
     "float64 rounding: PROVED within the driver's tolerance (Properties/C01_float.v, Flocq binary64 = FLT(-1074,53), round to nearest even) for "
     "const profiles (instants and count, rate = configured rational rounded once to float64, guard 2^-20 <= ops <= 2^40, D <= 2^62, k < 2^53), for "
     "the count of every non-flat line with binary64 rates, for the instants of increasing lines (incl. the cancellation term D*kappa*2^-48; slope guard "
